@@ -10,10 +10,11 @@ EXTENDS ArkCursor, Json, IOUtils
 
 Trace == ndJsonDeserialize(IOEnv.TRACE_FILE)
 
-VARIABLES l, viol, lay0, cached0, seqno
-tvars == <<l, viol, lay0, cached0, seqno>>
+VARIABLES l, viol, lay0, cached0, seqno, kind0
+tvars == <<l, viol, lay0, cached0, seqno, kind0>>
 
-V(cls, d) == [l |-> l, cls |-> cls, d |-> ToString(d), seq |-> seqno]
+\* kind: the query kind of the layout announcement ("typed5 rt=1", "unsafe5 rt=1", "query0 rt=0", ...)
+V(cls, d) == [l |-> l, cls |-> cls, d |-> ToString(d), seq |-> seqno, kind |-> kind0]
 
 ModelCall(c) == IF c = "Ent" THEN "Get" ELSE c
 
@@ -35,15 +36,15 @@ CheckCur(ev) ==
 
 SetToSeq(S) == LET RECURSIVE G(_) G(T) == IF T = {} THEN <<>> ELSE LET x == CHOOSE y \in T : TRUE IN <<x>> \o G(T \ {x}) IN G(S)
 
-TInit == l = 1 /\ viol = <<>> /\ lay0 = <<>> /\ cached0 = FALSE /\ seqno = 0
+TInit == l = 1 /\ viol = <<>> /\ lay0 = <<>> /\ cached0 = FALSE /\ seqno = 0 /\ kind0 = ""
 TNext == /\ l <= Len(Trace)
          /\ l' = l + 1
          /\ LET ev == Trace[l] IN
-            CASE ev.k = "reset" -> seqno' = seqno + 1 /\ UNCHANGED <<viol, lay0, cached0>>
-              [] ev.k = "curlayout" -> lay0' = ev.lay /\ cached0' = ev.cached /\ UNCHANGED <<viol, seqno>>
-              [] ev.k = "cur" -> viol' = (IF Len(viol) < 300 THEN viol \o SetToSeq(CheckCur(ev)) ELSE viol) /\ UNCHANGED <<lay0, cached0, seqno>>
-              [] ev.k = "broken" -> viol' = Append(viol, V("ANY.world-unreadable", ev.msg)) /\ UNCHANGED <<lay0, cached0, seqno>>
-              [] OTHER -> UNCHANGED <<viol, lay0, cached0, seqno>>
+            CASE ev.k = "reset" -> seqno' = seqno + 1 /\ UNCHANGED <<viol, lay0, cached0, kind0>>
+              [] ev.k = "curlayout" -> lay0' = ev.lay /\ cached0' = ev.cached /\ kind0' = ev.kind /\ UNCHANGED <<viol, seqno>>
+              [] ev.k = "cur" -> viol' = (IF Len(viol) < 300 THEN viol \o SetToSeq(CheckCur(ev)) ELSE viol) /\ UNCHANGED <<lay0, cached0, seqno, kind0>>
+              [] ev.k = "broken" -> viol' = Append(viol, V("ANY.world-unreadable", ev.msg)) /\ UNCHANGED <<lay0, cached0, seqno, kind0>>
+              [] OTHER -> UNCHANGED <<viol, lay0, cached0, seqno, kind0>>
 TSpec == TInit /\ [][TNext]_tvars
 
 Done == l = Len(Trace) + 1 => PrintT("VERDICT " \o ToJson([lines |-> Len(Trace), seqs |-> seqno, viol |-> viol]))
